@@ -4,29 +4,48 @@ from checks_common import HTML_TB  # noqa: F401
 ID = "C04"
 
 PROP = {
-    'lean_props': ['Comrak.Props.C04'],
+    'lean_props': ['Comrak.Props.C04', 'Comrak.Props.C04Arena'],
     'lean_audit': ['Comrak.Audit.C04'],
-    'required_theorems': ['shape_validate', 'table_noPanic', 'cell_noPanic', 'row_completion_length', 'shape_gives_balanced_html'],
+    'required_theorems': ['shape_validate', 'table_noPanic', 'cell_noPanic', 'row_completion_length', 'shape_gives_balanced_html',
+                          'shape_imp_noPanic', 'xml_no_panic', 'cm_no_panic',
+                          'links_fresh', 'links_preserved_detach', 'links_preserved_append', 'links_preserved_prepend',
+                          'links_preserved_insertAfter', 'links_preserved_insertBefore', 'children_detach', 'children_append',
+                          'children_prepend', 'children_insertAfter', 'children_insertBefore', 'children_append_detached',
+                          'next_prev', 'prev_next', 'first_child_ok', 'last_child_ok',
+                          'acyclic_fresh', 'acyclic_preserved_detach', 'acyclic_preserved_append', 'acyclic_preserved_prepend',
+                          'acyclic_preserved_insertAfter', 'acyclic_preserved_insertBefore'],
     'strength': 'partial: the Shape predicate, its consequences and the small mechanisms are theorems; that every parsed tree satisfies '
-                'Shape is decided by evaluating the Lean predicate on real parser output (the block/inline parser is not modelled)',
+                'Shape is decided by evaluating the Lean predicate on real parser output (the block/inline parser is not modelled). '
+                'Link clause: arena_tree is modelled link by link (ArenaTree.lean) and Lean proves that detach/append/prepend/insert_after/'
+                'insert_before each preserve the invariant Links (first/last child, next/previous sibling and parent links represent the '
+                'child lists, no list repeats a node) under their operand conditions, starting from Node::new nodes (links_fresh), and what '
+                'each does to the child lists; that no node becomes its own ancestor is the separate invariant Acyclic, preserved by each mutator when '
+                'the new child is neither the new parent nor one of its ancestors (acyclic_preserved_*; counterexample theorems show the '
+                'operand conditions are needed)',
     'trusted_base': ["the containment table canContain is hand-written and compared with nodes::can_contain_type on all 41 x 41 kind pairs on every run (exhaustive)",
-                     "arena_tree link consistency is walked through the public accessors on every parsed tree; the link-array model of arena_tree's mutators planned in DESIGN.md is not built"],
+                     "the link-array model (ArenaTree.lean: five Option links per node, the five mutators statement by statement) is hand-written from arena_tree.rs and compared with the real comrak::arena_tree::Node on random operation sequences, complete link dump after every operation, on every run; that the parser touches the links only through these five mutators is by reading (the link cells are private to arena_tree.rs)",
+                     "arena_tree link consistency is also walked through the public accessors on every parsed tree"],
     'assumptions': ['ShortCode is feature-gated off in the default build and not part of the model'],
 }
 
 TEXT = {
     'text': "Proof (partial) + evaluation of the proved predicate on real parser output. Shape (containment table on every edge, placement of "
             "rows/cells/footnote definitions/documents, table geometry, heading level) is an executable Lean predicate; Lean proves that it "
-            "implies the library validator's verdict (shape_validate), that it makes the formatter's unwrap/index sites safe (table_noPanic, "
+            "implies the library validator's verdict (shape_validate), that it makes the formatters' unwrap/panic/index sites safe at every node of a whole tree rooted at a document "
+            "(shape_imp_noPanic for html.rs, xml_no_panic for xml.rs, cm_no_panic for cm.rs given non-empty code literals; per node: table_noPanic, "
             "cell_noPanic, paragraph_noPanic) and the HTML balanced for every option vector (via C10), and the parser's row-completion and "
             "heading-level mechanisms. The containment table is tied to nodes::can_contain_type exhaustively on every run. Whether every "
             "parsed tree satisfies Shape is a statement about the whole parser, which is not modelled: it is decided per run by evaluating "
             "Shape, the real validate() (which must agree with the Lean validateT) and a parent/child/sibling link walk on the trees the real "
             "parser builds for generated documents x random extension/parse option vectors with the pairs the property names over-weighted. "
+            "The parent/child/sibling link clause additionally has a proof: a link-array model of arena_tree whose five mutators are "
+            "proved to preserve the link invariant (links_preserved_*) and to act on child lists as the obvious list operations (children_*); "
+            "the model is tied to the real arena_tree by random operation sequences with the full link dump compared after every step. "
             "The pinned tree's defect (Escaped / EscapedTag rejected by the containment table under escaped_char_spans and in table cells) was "
             "re-established by this check and repaired by a fix: commit.",
     'note': 'Trusted: Lean kernel + standard axioms; harness/driver. The universal claim over all documents rests on search, not proof.',
-    'technique': 'Lean 4 theorems about the shape predicate and mechanisms + exhaustive table correspondence + evaluation of the Lean '
+    'technique': 'Lean 4 theorems about the shape predicate and mechanisms + invariant-preservation theorems for a link-array model of '
+                 'arena_tree with operation-sequence correspondence + exhaustive table correspondence + evaluation of the Lean '
                  'predicate on real parser output',
     'design_ref': 'DESIGN.md section 7, C04',
 }
